@@ -117,3 +117,15 @@ package load
 //@   prop C09
 //@   requires p != nil && p.shedder != nil
 //@   ensures [returns-slot] p.shedder.flying == old(p.shedder.flying) - 1
+
+// Construction: both counters cover the same window with the same number of buckets and ignore the current
+// (partial) bucket; `windows` is the number of buckets per second used by the capacity formula.
+//@ func NewAdaptiveShedder
+//@   prop C09
+//@   opaque newNopShedder, NewAtomicDuration, NewAtomicBool, NewRollingWindow, IgnoreCurrentBucket, True
+//@   loop 1 invariant -1 <= rangeindex
+//@   let sh = unbox(result, ptr(adaptiveShedder))
+//@   ensures [disabled-is-a-nop] !ret(True) ==> result == ret(newNopShedder) && calls(NewRollingWindow) == 0
+//@   ensures [two-equal-windows-ignoring-current] ret(True) ==> calls(collection.NewRollingWindow) == 2 && arg(collection.NewRollingWindow, 0, 1) == arg(collection.NewRollingWindow, 0, 2) && arg(collection.NewRollingWindow, 1, 1) == arg(collection.NewRollingWindow, 1, 2) && calls(collection.IgnoreCurrentBucket) == 2 && len(arg(collection.NewRollingWindow, 2, 1)) == 1 && len(arg(collection.NewRollingWindow, 2, 2)) == 1
+//@   ensures [wired] ret(True) ==> typeis(result, ptr(adaptiveShedder)) && sh.passCounter == ret(collection.NewRollingWindow, 0, 1) && sh.rtCounter == ret(collection.NewRollingWindow, 0, 2) && sh.flying == 0 && sh.cpuThreshold == local(options).cpuThreshold
+//@   ensures [defaults] ret(True) && len(opts) == 0 ==> arg(collection.NewRollingWindow, 0, 1) == 50 && arg(collection.NewRollingWindow, 1, 1) == 100000000 && sh.windows == 10 && sh.cpuThreshold == 900
